@@ -178,14 +178,14 @@ def cases(tier, seed, shard, nshards):
                         yield {"k": "arith3", "tree": {"t": "bin", "o": o, "l": a(), "r": b()}}
         n3 = 0
     else:
-        n3 = 24000 // nshards
+        n3 = 48000 // nshards
     for _ in range(n3):
         names.n = 0
         if rnd.random() < 0.7:
             yield {"k": "arith3", "tree": {"t": "bin", "o": rnd.choice("+-*/"), "l": rnd.choice(d2)(), "r": rnd.choice(d2)()}}
         else:
             yield {"k": "bool3", "tree": {"t": rnd.choice(["and", "or", "xor"]), "l": rnd.choice(b2)(), "r": rnd.choice(b2)()}}
-    n = (6000 if tier == "quick" else 500000) // nshards
+    n = (24000 if tier == "quick" else 500000) // nshards
     made = 0
     while made < n:
         names.n = 0
